@@ -16,7 +16,10 @@ RULE = ("Each case = a generated commit/merge/delete history (1-5 commits of 0-1
         "with a set-algebra reference evaluator over the document model. A (history, query) pair is non-trivial "
         "when the reference result is neither empty nor all documents and the index has >=2 segments or "
         "physically present deleted documents; distinct by SHA-1 of (query shape, segment count, deleted count, "
-        "result size).")
+        "result size). bigsegment: one segment of 2049-5001 documents built from a generated periodic recipe (each "
+        "word occurs in documents j with (j+offset) % period == 0 from some j on), optionally with every 7th / 2048th "
+        "document deleted, 4 generated queries through the same access paths and the same reference; non-trivial = "
+        "result neither empty nor everything.")
 ASSUMPTIONS = [
     "reference evaluator (wv/refquery.py) encodes the documented meaning of each query type",
     "FuzzyTerm is checked against an interval [Levenshtein, Damerau-Levenshtein] because the docs do not fix "
@@ -118,6 +121,67 @@ def run(case, out):
             ix.close()
 
 
+# ---------------------------------------------------------------------------------------------------------
+# one big segment: posting lists, skip blocks and the array-buffered union span several internal parts
+
+def strategy_big(tier):
+    word = st.fixed_dictionaries({"w": st.sampled_from(gen.VOCAB), "period": st.integers(2, 700),
+                                  "offset": st.integers(0, 699), "from": st.integers(0, 3000)})
+    return st.fixed_dictionaries({
+        "ndocs": st.sampled_from([2049, 2050, 2100, 3000, 4097, 4100, 5000, 5001]),
+        "recipe": st.lists(word, min_size=4, max_size=14),
+        "kws": st.lists(st.fixed_dictionaries({"w": st.sampled_from(["x", "y", "z", "xy"]), "period": st.integers(2, 50),
+                                               "offset": st.integers(0, 49), "from": st.just(0)}), max_size=3),
+        "deleted_period": st.sampled_from([0, 0, 7, 2048]),
+        "queries": st.lists(gen.query_s(max_leaves=8), min_size=4, max_size=4),
+    })
+
+
+def run_big(case, out):
+    from whoosh.filedb.filestore import RamStorage
+    n = case["ndocs"]
+    docs = []
+    for j in range(n):
+        t = [r["w"] for r in case["recipe"] if j >= r["from"] and (j + r["offset"]) % r["period"] == 0]
+        w = [r["w"] for r in case["kws"] if (j + r["offset"]) % r["period"] == 0]
+        docs.append({"k": "k%d" % j, "t": t, "w": w, "n": (j * 7) % 91 - 45, "d": None, "g": None})
+    ix = RamStorage().create_index(corpus.build_schema({}))
+    wr = ix.writer()
+    for dd in docs:
+        wr.add_document(**corpus.doc_kwargs(dd))
+    wr.commit()
+    dp = case["deleted_period"]
+    if dp:
+        wr = ix.writer()
+        for j in range(dp - 1, n, dp):
+            wr.delete_by_term("k", "k%d" % j)
+        wr.commit(merge=False)
+        docs = [dd for j, dd in enumerate(docs) if (j + 1) % dp != 0]
+    nseg, ndel = corpus.layout_signature(ix)
+    if nseg != 1:
+        from wv.runner import HarnessError
+        raise HarnessError("expected one segment")
+    s = ix.searcher()
+    try:
+        nt = []
+        for qj in case["queries"]:
+            lo, hi = check_query(s, qj, docs, out, nseg, ndel, tag=":bigsegment")
+            out.units += 1
+            if lo != hi:
+                out.exclude("fuzzy_variant_ambiguous")
+            if 0 < len(hi) < len(docs):
+                nt.append([shape(qj), n, ndel, len(hi)])
+            if any(x["op"] == "or" and len(x["qs"]) >= 3 for x in walk(qj)):
+                out.label("or_fanout3+")
+        out.nontrivial = bool(nt)
+        out.key = nt
+        out.label("ndocs_%d" % n)
+    finally:
+        s.close()
+        ix.close()
+
+
 SUBS = {
     "search": Sub(run, strategy, quick=50, thorough=300, quick_shards=8),
+    "bigsegment": Sub(run_big, strategy_big, quick=3, thorough=60, quick_shards=8),
 }
